@@ -26,7 +26,8 @@ def shards(tier, seed):
     for i, g in enumerate(common.split(common.ALL_INDEXES, 4)):
         out.append({'name': 'frames%d' % i, 'what': 'frames', 'indexes': g,
                     'per': 12 if q else 300})
-    return out
+    return out + common.with_configs([out[0], out[4]], common.ALL_CONFIGS,
+                                     take=2)[2:]
 
 
 def cases(shard, rnd):
@@ -142,6 +143,9 @@ def run_case(case, rec):
             rec.count('short_ok')
         return
     common.set_legacy(False)
+    if rec.evaluations % 3 == 0:
+        common.disturb_encoder(common.RND, 1)
+        rec.count('failed_encodes_interleaved')
     if t == 'method':
         cls = boundary.lib_class_for(case['index'])
         c = call(cls, **case['vals'])
